@@ -267,6 +267,47 @@ theorem BoxCox2sym.forward_backward (p : BoxCox2sym.Params ℝ) (y : ℝ) (hnu :
     rw [BoxCox2.fwd_bwd _ hy]
     ring
 
+/-- `nu = 0` (reachable with the constructor option `mininu = 0`): `BC(0)` still exists on the power branch with
+`lam > 0` (`0^lam = 0`), and the round trip holds for every `x` -/
+theorem BoxCox2sym.backward_forward_nu_zero (p : BoxCox2sym.Params ℝ) (x : ℝ) (hnu : p.nu = 0)
+    (hl : lamBig p.lam = true) (hpos : 0 < p.lam) :
+    (BoxCox2sym.forward p x).bind (BoxCox2sym.backward p) = some x := by
+  simp only [BoxCox2sym.forward, BoxCox2sym.backward, Option.bind_some, BoxCox2sym.fwd, BoxCox2sym.bwd,
+    BoxCox2sym.y0, absv_eq]
+  have hne := lamBig_true hl
+  have hf0 : BoxCox2.fwd (BoxCox2sym.toBC p) 0 = -1 / p.lam := by
+    simp only [BoxCox2.fwd, BoxCox2sym.toBC, hl, if_true, transc_pow, hnu, add_zero, Real.zero_rpow hne]
+    ring
+  have hf : ∀ t : ℝ, 0 < t → BoxCox2.fwd (BoxCox2sym.toBC p) t - BoxCox2.fwd (BoxCox2sym.toBC p) 0 = t ^ p.lam / p.lam := by
+    intro t _
+    rw [hf0]
+    simp only [BoxCox2.fwd, BoxCox2sym.toBC, hl, if_true, transc_pow, hnu, add_zero]
+    field_simp; ring
+  have hfpos : ∀ t : ℝ, 0 < t → 0 < BoxCox2.fwd (BoxCox2sym.toBC p) t - BoxCox2.fwd (BoxCox2sym.toBC p) 0 := by
+    intro t ht; rw [hf t ht]; exact div_pos (Real.rpow_pos_of_pos ht _) hpos
+  congr 1
+  rcases lt_trichotomy x 0 with hx | hx | hx
+  · have hp := hfpos (-x) (neg_pos.mpr hx)
+    rw [sign_neg hx, abs_of_neg hx]
+    have hy : (-1 : ℝ) * (BoxCox2.fwd (BoxCox2sym.toBC p) (-x) - BoxCox2.fwd (BoxCox2sym.toBC p) 0) < 0 := by
+      linarith
+    rw [sign_neg hy, abs_of_neg hy]
+    have e : -(-1 * (BoxCox2.fwd (BoxCox2sym.toBC p) (-x) - BoxCox2.fwd (BoxCox2sym.toBC p) 0))
+        + BoxCox2.fwd (BoxCox2sym.toBC p) 0 = BoxCox2.fwd (BoxCox2sym.toBC p) (-x) := by ring
+    rw [e, BoxCox2.bwd_fwd _ (by simp only [BoxCox2sym.toBC, hnu]; linarith)]
+    ring
+  · subst hx
+    simp [sign_zero]
+  · have hp := hfpos x hx
+    rw [sign_pos hx, abs_of_pos hx]
+    have hy : 0 < (1 : ℝ) * (BoxCox2.fwd (BoxCox2sym.toBC p) x - BoxCox2.fwd (BoxCox2sym.toBC p) 0) := by
+      linarith
+    rw [sign_pos hy, abs_of_pos hy]
+    have e : 1 * (BoxCox2.fwd (BoxCox2sym.toBC p) x - BoxCox2.fwd (BoxCox2sym.toBC p) 0)
+        + BoxCox2.fwd (BoxCox2sym.toBC p) 0 = BoxCox2.fwd (BoxCox2sym.toBC p) x := by ring
+    rw [e, BoxCox2.bwd_fwd _ (by simp only [BoxCox2sym.toBC, hnu]; linarith)]
+    ring
+
 /-- the object re-synchronises its inner BoxCox2 first: the result never depends on the stale inner state -/
 theorem BoxCox2sym.state_forward_eq (s : BoxCox2sym.State ℝ) (x : ℝ) :
     BoxCox2sym.State.forward s x =
@@ -789,6 +830,7 @@ example : Softmax.dom ([0.2, 0.3] : List ℝ) := by
     rcases hx with rfl | rfl <;> norm_num
   · simp only [Softmax.sumL, Softmax.sumFrom, eps]; norm_num
 example : (0 : ℝ) < (⟨1e-10, 0.5, 1e-10⟩ : BoxCox2sym.Params ℝ).nu := by norm_num
+example : (⟨0, 0.5, 0⟩ : BoxCox2sym.Params ℝ).nu = 0 ∧ (0 : ℝ) < 0.5 := by norm_num
 example : Sinh.admissible (⟨-2, 1e-10⟩ : Sinh.Params ℝ) := by simp only [Sinh.admissible]; norm_num
 example : Manly.admissible (⟨0, 2⟩ : Manly.Params ℝ) ∧ Manly.admissible (⟨-5, 1e-10⟩ : Manly.Params ℝ) := by
   simp only [Manly.admissible, eps]; norm_num
